@@ -132,6 +132,21 @@ PostClause(e, b, accepted) ==
           THEN "C03:earlier_snapshot_changed"
      ELSE ""
 
+(* the no-inflation clauses on the totals the node itself reports: usable also when the accepted block cannot be applied to the
+   specification's ledger (e.g. two of its transactions spend the same output), where PostClause is not reached *)
+ReportedC02(e, b) ==
+  LET p == e.post
+  IN IF ~("C02" \in Focus /\ e.validated /\ b.height > Horizon) THEN ""
+     ELSE IF \E i \in 1..Len(p.utxo) : \E j \in 1..Len(p.utxo) :
+                /\ p.utxo[i][1] = b.id /\ p.utxo[j][1] = b.parent
+                /\ RowsNoDup(p.utxo[i][2]) /\ RowsNoDup(p.utxo[j][2])
+                /\ Total(UtxoOf(p.utxo[i][2])) > Total(UtxoOf(p.utxo[j][2])) + Subsidy(b.height)
+          THEN "C02:reported_total_grew_by_more_than_subsidy"
+     ELSE IF e.allvalidated /\ (\E i \in 1..Len(p.utxo) : p.utxo[i][1] = b.id /\ RowsNoDup(p.utxo[i][2])
+                /\ (Total(UtxoOf(p.utxo[i][2])) > CumSubsidy(b.height) \/ Total(UtxoOf(p.utxo[i][2])) > MaxMoney))
+          THEN "C02:reported_total_exceeds_schedule"
+     ELSE ""
+
 Verdict(c, keep) == /\ PrintT(ToJson(<< "VERDICT", Traces[tid].id, c, l >>))
                     /\ done' = TRUE /\ UNCHANGED << tid, l >>
                     /\ IF keep THEN TRUE ELSE UNCHANGED lvars
@@ -153,6 +168,7 @@ StepAdd(e) ==
              IN IF pc # "" THEN Verdict(pc, FALSE)
                 ELSE IF ~CanApply(b) THEN
                      Verdict(IF Focus \cap {"C01", "C03"} # {} THEN "C01:accepted_block_cannot_be_applied_to_parent_ledger"
+                             ELSE IF ReportedC02(e, b) # "" THEN ReportedC02(e, b)
                              ELSE "inconclusive", FALSE)
                 ELSE /\ Store(b)
                      /\ LET qc == PostClause(e, b, TRUE)
